@@ -5,11 +5,11 @@ from concurrent.futures import ThreadPoolExecutor
 from . import sx
 
 ROOT = os.path.dirname(os.path.dirname(os.path.dirname(os.path.abspath(__file__))))
-DRIVER = os.path.join(ROOT, 'ocaml', 'driver')
 
 
-def _run_chunk(lines):
-    p = subprocess.run(['bash', '-c', 'ulimit -s unlimited 2>/dev/null; exec "%s"' % DRIVER],
+def _run_chunk(args):
+    driver, lines = args
+    p = subprocess.run(['bash', '-c', 'ulimit -s unlimited 2>/dev/null; exec "%s"' % driver],
                        input='\n'.join(lines) + '\n', capture_output=True, text=True)
     if p.returncode != 0:
         raise RuntimeError('model driver failed: rc=%s %s' % (p.returncode, p.stderr[-2000:]))
@@ -18,11 +18,12 @@ def _run_chunk(lines):
 
 def run_model(prop, cases, nproc=8):
     """cases: list of (sub, value). Returns list of decoded results (or ('!', message) on driver-level failure)."""
+    driver = os.path.join(ROOT, 'ocaml', 'driver_C%02d' % prop)
     lines = ['%d %s %s %s' % (i, sx.enc(prop), sx.enc(sub), sx.enc(val)) for i, (sub, val) in enumerate(cases)]
     if not lines:
         return []
     nproc = max(1, min(nproc, len(lines) // 8 + 1))
-    chunks = [lines[i::nproc] for i in range(nproc)]
+    chunks = [(driver, lines[i::nproc]) for i in range(nproc)]
     with ThreadPoolExecutor(nproc) as ex:
         outs = list(ex.map(_run_chunk, chunks))
     res = [None] * len(lines)
